@@ -555,7 +555,15 @@ class TagAttrDict(Dict[str, "str | HTML"]):
                 nm = self._normalize_attr_name(k)
 
                 if nm in attrz:
-                    val = attrz[nm] + " " + val
+                    prev = attrz[nm]
+                    # If exactly one side is HTML(), `+` would escape the plain side as text
+                    # (HTML.__add__/__radd__); it ends up inside an attribute value, so it
+                    # must be escaped as an attribute value instead.
+                    if isinstance(prev, HTML) and not isinstance(val, HTML):
+                        val = HTML(html_escape(val, attr=True))
+                    elif isinstance(val, HTML) and not isinstance(prev, HTML):
+                        prev = HTML(html_escape(prev, attr=True))
+                    val = prev + " " + val
 
                 attrz[nm] = val
 
